@@ -155,4 +155,17 @@ PROPS = {
         "level_text": "Generated histories plus sampled cut points over the file-system mutation sequence of an update. For every observation: notification/snapshot/delta hashes, snapshot = publication state, every remembered serial reaches the snapshot through the offered chain, serial +1 per update, session only changes by reset, retention bounds, rsync = snapshot, recovery after interruption. Not exhaustive over cut points.",
         "level_note": "Trusted base: rpki RRDP parser, the reference model of Engine P, the fault hook (fails a mutation before it is performed).",
     },
+    "C09": {
+        "level": "exploration",
+        "cases": {"quick": 4000, "thorough": 80000},
+        "rule": "two kinds of generated cases: (a) sequences of 5-60 schedule (all five modes, explicit and implicit times, past and future) / claim / finish / reschedule / long-running-requeue / clock-advance / re-open operations on the task queue "
+        "(memory and disk) against a reference model; (b) world histories on disk after which the daemon stops - cleanly or as a crash while exactly k in 0..3 tasks are claimed and running - followed by the restart procedure "
+        "(re-queue running tasks, QueueStartTasks) and a pump; distinct by hash of the case JSON; non-trivial iff (a) a 'soonest' schedule met an existing task, a claim chose among several due tasks or a running task was finished by a schedule, "
+        "or (b) at least one task was running at the stop",
+        "floors": {"__nontrivial__": 0.50, "queue:disk": 0.25, "queue:memory": 0.25, "stopped_with_running:1": 0.03, "stopped_with_running:2": 0.02, "crash_stop": 0.10},
+        "assumptions": W_ASSUME + ["several pending entries of one task name (possible after re-scheduling a running task while the same name was scheduled again) are not generated in the queue model", "tasks of deleted CAs are dropped legitimately"],
+        "technique": "model-based property testing of the task queue (reference model: earliest due task first, soonest modes keep the earlier time, if-missing adds nothing, nothing lost or duplicated) plus crash/restart histories whose oracle is: every pending or running task is pending after the restart procedure and is executed, recurring tasks are scheduled again, and the C01 oracle holds afterwards",
+        "level_text": "Exploration by generated operation sequences and generated stop instants (number of running tasks at the stop is a generated parameter, so the single-running-task case is always covered). Sampling, not proof; 'eventually executed' is decided as 'executed by the deterministic pump once due'.",
+        "level_note": "Trusted base: the queue reference model in harness/src/props/c09.rs, the pump. The real scheduler thread is exercised by C18, not here.",
+    },
 }
